@@ -88,6 +88,23 @@ def ms1(p, res):
                             verdict, why = "violation", "the buffer is allocated for %r but the literal advertises a capacity of %r limbs" % (ln, cap)
                 elif any((f.callee_def(f.blocks[r[1]]["t"]) or {}).get("n") in ("index", "index_mut", "split_at_mut", "split_at", "cast_slice", "cast_slice_mut", "get", "get_mut", "chunks_exact", "at", "at_mut") for r in calls):
                     verdict = "checked-subslice"
+                    # a prefix `buf[..bytes_of(n, cols, X)]` wrapped (or copied) under an advertised capacity: X has to be that capacity
+                    cap = dpoly.get("max_size")
+                    plain = Flow(f)
+                    for r in calls:
+                        t3 = f.blocks[r[1]]["t"]
+                        if (f.callee_def(t3) or {}).get("n") not in ("index", "get") or len(t3["a"]) != 2 or cap is None:
+                            continue
+                        for rr in plain.op_roots(t3["a"][1]):
+                            if rr[0] != "agg":
+                                continue
+                            rv = f.blocks[rr[1]]["s"][rr[2]][2]
+                            if not (rv.get("fields") and "end" in rv["fields"]):
+                                continue
+                            ln = sym.operand(rv["o"][rv["fields"].index("end")])
+                            bo = [a for a in ln.atoms() if a[0] == "f" and (a[1] in ("bytes_of", "bytes_of_from_infos") or a[1].startswith("bytes_of_"))]
+                            if len(bo) == 1 and len(ln.t) == 1 and cap.key() not in bo[0][2]:
+                                verdict, why = "violation", "the object owns %r bytes but advertises a capacity of %r limbs" % (ln, cap)
                 elif any((f.callee_def(f.blocks[r[1]]["t"]) or {}).get("n", "").startswith("take_slice") for r in calls):
                     verdict = "take_slice"
                 elif any(r[0] == "param" for r in droots):
